@@ -185,6 +185,48 @@ def bounded(ctx, b):
                         sample={"set": name, "writer": W.__name__, "options": opts, "force": force})
 
 
+def styling_tag(c):
+    """DFXPWriter._recreate_styling_tag / LegacyDFXPWriter._recreate_styling_tag (A: stub DOM): one style of the set is
+    written into a head that already holds zero or one style.  Afterwards the head holds every style it held, unchanged, and
+    the new one AT MOST once - exactly when it has something a DFXP style can say (a writable property, or a reference that
+    resolves); a `style=` reference on it names a style that IS in the head - never one that is not (yet) written, so no
+    reference dangles whatever the order in which the styles are written."""
+    from pycaption.dfxp.base import DFXPWriter
+    from pycaption.dfxp.extras import LegacyDFXPWriter
+    from refs.stubdom import StubSoup, StubTag
+    W = c.pick("writer", [DFXPWriter, LegacyDFXPWriter])
+    prior = c.pick("head_holds", [(), ("s0",)])
+    ref = c.pick("class", [None, "s0", "later", "mine"])
+    writable = c.pick("writable_properties", [{}, {"color": "red"}, {"italics": True, "font-family": "Arial"}])
+    other = c.pick("other_properties", [{}, {"bold": True, "underline": True}])
+    content = dict(writable, **other)
+    if ref:
+        content["class"] = ref
+        content["classes"] = [ref]
+    soup = StubSoup()
+    styling = soup.find("styling")
+    for i_ in prior:
+        styling.append(StubTag("style", {"xml:id": i_, "tts:color": "white"}))
+    before = [(t.attrs.get("xml:id"), dict(t.attrs)) for t in styling.children]
+    w = c.new(W, open_span=False, p_style=False)
+    from pyvc.sym import Inapplicable
+    from pyvc.verify import Raised
+    r = c.call(W._recreate_styling_tag, w, "mine", dict(content), soup, compare=False, raises=(AttributeError, KeyError, TypeError))
+    if isinstance(r, Raised):
+        # a private helper called outside the state its caller now prepares for it: the contract no longer fits (undecided);
+        # a crash on real documents is the bounded part's to report
+        raise Inapplicable(f"_recreate_styling_tag does not run on a head prepared as before: {r!r}"[:200])
+    now = [t for t in styling.children if isinstance(t, StubTag)]
+    mine = [t for t in now if t.attrs.get("xml:id") == "mine"]
+    resolves = ref is not None and ref in prior
+    c.ensure("the_document_is_returned", r is soup)
+    c.ensure("earlier_styles_unchanged", [(t.attrs.get("xml:id"), dict(t.attrs)) for t in now if t.attrs.get("xml:id") != "mine"] == before)
+    c.ensure("written_at_most_once_and_exactly_when_it_says_something", len(mine) == (1 if (writable or resolves) else 0))
+    for t in mine:
+        c.ensure("a_reference_names_a_style_that_is_in_the_head", ("style" not in t.attrs) or (t.attrs["style"] in [x.attrs.get("xml:id") for x in now if x is not t]))
+        c.ensure("a_reference_that_resolves_is_kept", ("style" in t.attrs) == resolves)
+
+
 def run(ctx):
     import props.C07_spans as SP
     SP.prove_span_balance(ctx)
@@ -194,6 +236,9 @@ def run(ctx):
     WS.prove_write_skeleton(ctx)
     WS.prove_single_positioning_write(ctx)
     WS.prove_legacy_write_skeleton(ctx)
+    from pycaption.dfxp.base import DFXPWriter as _DW
+    from pycaption.dfxp.extras import LegacyDFXPWriter as _LW
+    ctx.prove("dfxp._recreate_styling_tag", styling_tag, functions=[_DW._recreate_styling_tag, _LW._recreate_styling_tag], crosscheck=False)
     import props.C12 as L12
     L12.prove_alignment(ctx)          # (an alignment attribute that is written has a value: a None value is a bare attribute name)
     ctx.bounded("documents", "caption sets read from sample documents of six formats and API-built sets (texts, style values, "
